@@ -154,3 +154,30 @@ VARIANTS += [
       "is swept"),
 ]
 
+
+LS = "moptipyapps/binpacking2d/objectives/bin_count_and_last_small.py"
+VARIANTS += [
+    V("upper-bound-tightened-for-skylines-too", LS,
+      "        return self._instance.n_items * self._instance.bin_height \\\n"
+      "            * self._instance.bin_width",
+      "        return ((self._instance.n_items - 1) * self._bin_size) \\\n"
+      "            + min(self._bin_size, self._instance.total_item_area)",
+      "fire", "D2.1"),
+    V("upper-bound-one-bin-short", LS,
+      "        return self._instance.n_items * self._instance.bin_height \\\n"
+      "            * self._instance.bin_width",
+      "        return (self._instance.n_items - 1) * "
+      "self._instance.bin_height \\\n"
+      "            * self._instance.bin_width", "fire", "D2.1"),
+    V("upper-bound-height-squared", LS,
+      "        return self._instance.n_items * self._instance.bin_height \\\n"
+      "            * self._instance.bin_width",
+      "        return self._instance.n_items * self._instance.bin_height \\\n"
+      "            * self._instance.bin_height", "fire", "D2.1"),
+    V("silent-upper-bound-looser", LS,
+      "        return self._instance.n_items * self._instance.bin_height \\\n"
+      "            * self._instance.bin_width",
+      "        return (self._instance.n_items + 1) * "
+      "self._instance.bin_height \\\n"
+      "            * self._instance.bin_width", "silent"),
+]
